@@ -421,6 +421,13 @@ func isoconcHandle(c map[string]J) map[string]J {
 				if got := a.String(); got != name {
 					torn[i] = fmt.Sprintf("NewAtom(%q).String() = %q", name, got)
 				}
+				// the standard order of atoms reads the table, too, while the other goroutines write it
+				if k > 0 {
+					prev := fmt.Sprintf("shared_%d_%d_%d", os.Getpid(), isoSeq, k-1)
+					if got, want := a.Compare(shared[i][k-1], nil), strings.Compare(name, prev); got != want {
+						torn[i] = fmt.Sprintf("NewAtom(%q).Compare(NewAtom(%q)) = %d", name, prev, got)
+					}
+				}
 				_ = engine.NewVariable()
 			}
 			// fresh atoms per run so that interning really happens concurrently
@@ -440,7 +447,15 @@ func isoconcHandle(c map[string]J) map[string]J {
 		}(i, p.(map[string]J))
 	}
 	close(barrier)
-	wg.Wait()
+	allDone := make(chan struct{})
+	go func() { wg.Wait(); close(allDone) }()
+	select {
+	case <-allDone:
+	case <-time.After(wd(30 * time.Second)):
+		// (the goroutines stay blocked: the worker is of no further use, "fatal" makes the pool replace it)
+		return map[string]J{"status": "mismatch", "input": input, "what": "the interpreters running concurrently", "expected": "every one of them finishes (each finishes when run alone)",
+			"observed": "blocked for 30s: they wait for each other", "fatal": true}
+	}
 	engine.VerifHooks.OnIntern = nil
 	for i := range progs {
 		if torn[i] != "" {
